@@ -558,6 +558,113 @@ theorem cascadeLoop_spec :
             exact hnq (List.mem_append_right _ (List.mem_map.mpr ⟨d', hd', heq.symm⟩))
           · exact hnew d' hd'
 
+/-- what the walk keeps was there -/
+theorem cascadeLoop_fst_sub :
+    ∀ (fuel : Nat) (q : List Nat) (ds acc : List DelegRec), ∀ d ∈ (cascadeLoop fuel q ds acc).1, d ∈ ds := by
+  intro fuel
+  induction fuel with
+  | zero => intro q ds acc d hd; simpa [cascadeLoop] using hd
+  | succ n ih =>
+    intro q ds acc d hd
+    cases q with
+    | nil => simpa [cascadeLoop] using hd
+    | cons cur q0 =>
+      rw [cascadeLoop] at hd
+      exact (List.mem_filter.mp (ih _ _ _ d hd)).1
+
+/-- the walk loses nothing: every record is either kept or reported (and what was already reported stays so) -/
+theorem cascadeLoop_partition :
+    ∀ (fuel : Nat) (q : List Nat) (ds acc : List DelegRec),
+      (∀ d ∈ acc, d ∈ (cascadeLoop fuel q ds acc).2) ∧
+      ∀ d ∈ ds, d ∈ (cascadeLoop fuel q ds acc).1 ∨ d ∈ (cascadeLoop fuel q ds acc).2 := by
+  intro fuel
+  induction fuel with
+  | zero => intro q ds acc; exact ⟨fun d hd => by simpa [cascadeLoop] using hd, fun d hd => Or.inl (by simpa [cascadeLoop] using hd)⟩
+  | succ n ih =>
+    intro q ds acc
+    cases q with
+    | nil => exact ⟨fun d hd => by simpa [cascadeLoop] using hd, fun d hd => Or.inl (by simpa [cascadeLoop] using hd)⟩
+    | cons cur q0 =>
+      rw [cascadeLoop]
+      obtain ⟨h1, h2⟩ := ih (q0 ++ (ds.filter (fun d => decide (d.parent = cur))).map (·.child))
+        (ds.filter (fun d => decide (d.parent ≠ cur))) (acc ++ ds.filter (fun d => decide (d.parent = cur)))
+      refine ⟨fun d hd => h1 d (List.mem_append_left _ hd), fun d hd => ?_⟩
+      by_cases hp : d.parent = cur
+      · exact Or.inr (h1 d (List.mem_append_right _ (List.mem_filter.mpr ⟨hd, by simpa using hp⟩)))
+      · exact h2 d (List.mem_filter.mpr ⟨hd, by simpa using hp⟩)
+
+/-- a reported record was reported before or was a record that the walk did not keep -/
+theorem cascadeLoop_snd_cases :
+    ∀ (fuel : Nat) (q : List Nat) (ds acc : List DelegRec), ∀ d ∈ (cascadeLoop fuel q ds acc).2,
+      d ∈ acc ∨ (d ∈ ds ∧ d ∉ (cascadeLoop fuel q ds acc).1) := by
+  intro fuel
+  induction fuel with
+  | zero => intro q ds acc d hd; exact Or.inl (by simpa [cascadeLoop] using hd)
+  | succ n ih =>
+    intro q ds acc d hd
+    cases q with
+    | nil => exact Or.inl (by simpa [cascadeLoop] using hd)
+    | cons cur q0 =>
+      rw [cascadeLoop] at hd ⊢
+      rcases ih _ _ _ d hd with h | ⟨h1, h2⟩
+      · rcases List.mem_append.mp h with h | h
+        · exact Or.inl h
+        · have hk := List.mem_filter.mp h
+          refine Or.inr ⟨hk.1, fun hin => ?_⟩
+          have := (List.mem_filter.mp (cascadeLoop_fst_sub _ _ _ _ d hin)).2
+          have hp : d.parent = cur := by simpa using hk.2
+          simp [hp] at this
+      · exact Or.inr ⟨(List.mem_filter.mp h1).1, h2⟩
+
+/-- the records reachable from the agents `q` in the record graph of `ds`: a record whose delegating parent is one of
+    `q`, and every record delegated onward by the child of such a record -/
+inductive FromAgents (ds : List DelegRec) (q : List Nat) : DelegRec → Prop
+  | first {d : DelegRec} : d ∈ ds → d.parent ∈ q → FromAgents ds q d
+  | onward {d d' : DelegRec} : FromAgents ds q d → d' ∈ ds → d'.parent = d.child → FromAgents ds q d'
+
+theorem FromAgents.mono {ds ds' : List DelegRec} {q : List Nat} {d : DelegRec} (hsub : ∀ x ∈ ds, x ∈ ds')
+    (h : FromAgents ds q d) : FromAgents ds' q d := by
+  induction h with
+  | first hd hq => exact .first (hsub _ hd) hq
+  | onward _ hd hp ih => exact .onward ih (hsub _ hd) hp
+
+/-- one step of the walk backwards: reachable from the new queue in the remaining records ⇒ reachable from the old
+    queue in all records -/
+theorem FromAgents.unstep {ds : List DelegRec} {cur : Nat} {q0 : List Nat} {d : DelegRec}
+    (h : FromAgents (ds.filter (fun x => decide (x.parent ≠ cur)))
+      (q0 ++ (ds.filter (fun x => decide (x.parent = cur))).map (·.child)) d) :
+    FromAgents ds (cur :: q0) d := by
+  induction h with
+  | @first x hx hq =>
+    have hx' := (List.mem_filter.mp hx).1
+    rcases List.mem_append.mp hq with hq | hq
+    · exact .first hx' (List.mem_cons_of_mem _ hq)
+    · obtain ⟨k, hk, hkc⟩ := List.mem_map.mp hq
+      have hk' := List.mem_filter.mp hk
+      exact .onward (.first hk'.1 (by rw [show k.parent = cur by simpa using hk'.2]; exact List.mem_cons_self ..))
+        hx' hkc.symm
+  | onward _ hx hp ih => exact .onward ih (List.mem_filter.mp hx).1 hp
+
+/-- the walk reports nothing else: a reported record was reported before or is reachable from the queued agents -/
+theorem cascadeLoop_only_below :
+    ∀ (fuel : Nat) (q : List Nat) (ds acc : List DelegRec), ∀ d ∈ (cascadeLoop fuel q ds acc).2,
+      d ∈ acc ∨ FromAgents ds q d := by
+  intro fuel
+  induction fuel with
+  | zero => intro q ds acc d hd; exact Or.inl (by simpa [cascadeLoop] using hd)
+  | succ n ih =>
+    intro q ds acc d hd
+    cases q with
+    | nil => exact Or.inl (by simpa [cascadeLoop] using hd)
+    | cons cur q0 =>
+      rw [cascadeLoop] at hd
+      rcases ih _ _ _ d hd with h | h
+      · rcases List.mem_append.mp h with h | h
+        · exact Or.inl h
+        · have hk := List.mem_filter.mp h
+          exact Or.inr (.first hk.1 (by rw [show d.parent = cur by simpa using hk.2]; exact List.mem_cons_self ..))
+      · exact Or.inr h.unstep
+
 theorem mem_foldl_drop_graph (child : Nat) {e : Edge} :
     ∀ (secs : List Nat) (s : State),
       e ∈ (secs.foldl (fun (st : State) sec =>
